@@ -55,6 +55,12 @@ def case_strategy(draw, tier="quick"):
     actions = draw(st.lists(st.one_of(*acts), min_size=lo, max_size=40))
     return {"nparts": nparts, "max_batch": draw(st.integers(1, 4)),
             "reset": draw(st.sampled_from(["earliest", "earliest", "latest"])),
+            # auto.offset.reset left out by the caller: documented default is 'latest'
+            "reset_given": draw(st.sampled_from([True, True, False])),
+            # invocations of the consumer that raise (in incarnations that end in a crash: the
+            # batch is then not completely processed, must not be committed, and is re-delivered)
+            "fail_at": sorted(draw(st.sets(st.integers(0, 5), max_size=2)))
+            if draw(st.integers(0, 3)) == 0 else [],
             "autocommit": draw(st.sampled_from([None, None, "true", "false", True])),
             "refresh": refresh, "pre": draw(st.lists(st.tuples(st.integers(0, 3), st.integers(1, 4)),
                                                       max_size=3)),
@@ -64,7 +70,8 @@ def case_strategy(draw, tier="quick"):
 class Incarnation:
     """one run of the consuming process"""
 
-    def __init__(self, case, cm, history):
+    def __init__(self, case, cm, history, fail_at=()):
+        self.fail_at = fail_at
         self.case = case
         self.cm = cm
         self.history = history
@@ -74,9 +81,10 @@ class Incarnation:
         self.loop = self.cmgr.__enter__()
         ck.BROKER.clock = self.loop.vclock
         self.log = Log(self.loop.vclock)
-        self.cons = Consumer(self.log, 0, "fut")
-        params = {"bootstrap.servers": "fake", "group.id": "g",
-                  "auto.offset.reset": self.case["reset"]}
+        self.cons = Consumer(self.log, 0, "fut", fail_at=self.fail_at)
+        params = {"bootstrap.servers": "fake", "group.id": "g"}
+        if self.case.get("reset_given", True):
+            params["auto.offset.reset"] = self.case["reset"]
         if self.case.get("autocommit") is not None:
             # whatever the caller asks for, streamz must force auto-commit off
             params["enable.auto.commit"] = self.case["autocommit"]
@@ -87,7 +95,15 @@ class Incarnation:
         # descriptors at the source and the message lists at the consumer
         self.kafka_source = self.source.upstreams[0]
         self.batches = []
-        self.kafka_source.sink(lambda part: self.batches.append(tuple(part[2:])) or None)
+        # (recorded at the source's own _emit, on the instance: a sink would be skipped when the
+        # consumer below the starmap raises first)
+        ks = self.kafka_source
+        orig_emit = ks._emit
+
+        def recording_emit(x, metadata=None, _o=orig_emit):
+            self.batches.append(tuple(x[2:]))
+            return _o(x, metadata=metadata)
+        ks._emit = recording_emit
         self.sink = self.source.sink(self.cons)
         self.n_commits0 = len([c for c in ck.BROKER.calls if c[0] == "commit"])
         self.source.start()
@@ -102,6 +118,9 @@ class Incarnation:
 
 
 def execute(case):
+    if not case.get("reset_given", True):
+        case = dict(case)
+        case["reset"] = "latest"   # "By default, a stream will start reading from the latest offsets"
     ck.BROKER.reset()
     ck.BROKER.create(TOPIC, case["nparts"])
     produced = 0
@@ -232,12 +251,17 @@ def execute(case):
                         inorder_ok = False
         if not final and any(inv not in finished for inv in called):
             crash_with_unfinished = True
+        if any(e[0] == "cx" for e in ev):
+            # a batch whose consumer raised never completes: "provided batches of a partition
+            # complete in order" does not hold, re-delivery is not asserted
+            inorder_ok = False
 
     expected_base = {}   # partition -> where the very first incarnation must start reading
 
     def run_incarnation(actions, final):
         wm_before = {p_: len(l_) for p_, l_ in enumerate(ck.BROKER.logs[TOPIC])}
-        with Incarnation(case, None, None) as inc:
+        fail_at = case.get("fail_at", []) if any(a[0] == "crash" for a in actions) else []
+        with Incarnation(case, None, None, fail_at=fail_at) as inc:
             inc.initial_parts = set(range(len(ck.BROKER.logs[TOPIC])))
             inc.wm_at_start = dict(wm_before)
             if not expected_base:
@@ -354,9 +378,11 @@ def execute(case):
                       "consumer: %s (first start positions %s)" % (missing[:8], first_start)))
     seen = set()
     v = [x for x in v if not (x[0] in seen or seen.add(x[0]))]
-    classes = ["reset:" + case["reset"], "parts:%d" % case["nparts"], "incarnations:%d" % n_inc]
+    classes = ["reset:" + case["reset"] + ("" if case.get("reset_given", True) else "(default)"), "parts:%d" % case["nparts"], "incarnations:%d" % n_inc]
     if crash_with_unfinished:
         classes.append("crash-with-unfinished-batch")
+    if case.get("fail_at"):
+        classes.append("consumer-raises")
     if out_of_order:
         classes.append("out-of-order-completion")
     return Result(v, nontrivial=crash_with_unfinished or out_of_order, classes=classes)
